@@ -656,13 +656,34 @@ Section StmtMain.
     now rewrite erase_list_app, (rws_erase x A), IH.
   Qed.
 
+  Lemma erase_docstring_stmt d : is_docstring_strict d = true -> erase d = Some [d].
+  Proof.
+    destruct d as [k sc fs|]; [|discriminate]. cbn [is_docstring_strict].
+    destruct sc as [|? ?]; [|discriminate]. destruct fs as [|[|[kc [|[] sc'] [|? ?]|] [|? ?]] [|? ?]]; try discriminate.
+    intros H. apply andb_prop in H as [Hk Hc]. apply N.eqb_eq in Hk, Hc. subst k kc. reflexivity.
+  Qed.
+  Lemma mod_doc_rest body : mod_doc body ++ mod_rest body = body.
+  Proof. destruct body as [|d rest]; [reflexivity|]. unfold mod_doc, mod_rest. now destruct (is_docstring_strict d). Qed.
+  Lemma mod_rest_frag body : forallb in_frag_s body = true -> forallb in_frag_s (mod_rest body) = true.
+  Proof.
+    destruct body as [|d rest]; [reflexivity|]. unfold mod_rest. destruct (is_docstring_strict d); [|auto].
+    cbn [forallb]. intros H. now apply andb_prop in H as [_ H].
+  Qed.
+  Lemma mod_doc_erase body : erase_list (mod_doc body) = Some (mod_doc body).
+  Proof.
+    destruct body as [|d rest]; [reflexivity|]. unfold mod_doc. destruct (is_docstring_strict d) eqn:Ed; [|reflexivity].
+    now rewrite erase_list_cons, (erase_docstring_stmt d Ed), erase_list_nil.
+  Qed.
+
   (* erasing the model's output for a fragment module gives back the module *)
   Theorem rw_module_erase m : in_frag m = true -> erase (rw_module c m) = Some [m].
   Proof.
     intros H. destruct m as [k sc fs|]; [|discriminate]. unfold in_frag in H.
     destruct sc; [|discriminate]. destruct fs as [|body [|[|] [|]]]; try discriminate.
     apply andb_prop in H as [Hk Hb]. apply N.eqb_eq in Hk; subst k.
-    unfold rw_module. rewrite erase_T, !erase_fields_cons, !erase_list_app, (rw_body_ok body Hb 1).
+    pose proof (mod_doc_rest body) as Hs. pose proof (mod_rest_frag body Hb) as Hr. pose proof (mod_doc_erase body) as Hd.
+    unfold rw_module. set (D := mod_doc body) in *. set (R := mod_rest body) in *. set (j := mod_start body). clearbody D R j. subst body.
+    rewrite erase_T, !erase_fields_cons, !erase_list_app, Hd, (rw_body_ok _ Hr).
     destruct (sub c E_init_module); destruct (sub c E_exit_module);
       rewrite ?erase_list_cons, ?erase_stmt_emit_noret, ?erase_list_nil, ?erase_fields_nil; cbn [app]; rewrite ?app_nil_r; reflexivity.
   Qed.
@@ -755,6 +776,26 @@ Proof.
   induction t as [|k sc fs IH] using tree_ind2; [reflexivity|]. cbn [tree_eqb]. rewrite N.eqb_refl, scalars_eqb_refl. cbn [andb].
   induction IH as [|f fs Hf _ IHfs]; [reflexivity|]. rewrite IHfs, andb_true_r.
   induction Hf as [|x f Hx _ IHf]; [reflexivity|]. now rewrite Hx, IHf.
+Qed.
+
+(* the module docstring of a fragment module keeps its position in the model's output (the fragment has no other scopes) *)
+Theorem rw_module_doc_head c m : in_frag m = true ->
+  exists body' ti, rw_module c m = T kModule [] [body'; ti] /\ doc_head_ok body' = true.
+Proof.
+  intros H. pose proof (rw_module_erase c m H) as E. destruct m as [k sc fs|]; [|discriminate]. unfold in_frag in H.
+  destruct sc; [|discriminate]. destruct fs as [|body [|[|] [|]]]; try discriminate.
+  apply andb_prop in H as [Hk Hb]. apply N.eqb_eq in Hk; subst k.
+  unfold rw_module in *. eexists _, _. split; [reflexivity|].
+  set (B := mod_doc body ++ _) in *.
+  assert (Eb : erase_stmts B = Some body).
+  { change (erase_stmts B) with (erase_list B). rewrite erase_T, !erase_fields_cons, erase_list_nil, erase_fields_nil in E.
+    destruct (erase_list B) as [b|]; [|discriminate]. unfold post in E.
+    change (N.eqb kModule kCall) with false in E. change (N.eqb kModule kIfExp) with false in E. change (N.eqb kModule kIf) with false in E.
+    change (N.eqb kModule kTry) with false in E. change (N.eqb kModule kExpr) with false in E. change (N.eqb kModule kSubscript) with false in E.
+    cbv iota in E. congruence. }
+  unfold doc_head_ok. rewrite Eb. destruct body as [|d rest]; [reflexivity|].
+  destruct (is_docstring_strict d) eqn:Ed; [|reflexivity].
+  subst B. unfold mod_doc. rewrite Ed. cbn [app]. apply tree_eqb_refl.
 Qed.
 
 Theorem rw_module_certified c m : in_frag m = true -> check_erase m (rw_module c m) = true.
